@@ -25,6 +25,7 @@ def plan(tier, ctx):
     j += fvm.config('C17', 'wq_1pusher', 'wq.c', 2, 3, 'tso', srcs=src, spec=S, unwindset=uw, bounds='worker + 1 pusher, x86-TSO', timeout=900)
     uwg = {'f_vm_thread_1.0': 4, 'f_vm_thread_2.0': 4, 'f_vm_thread_3.0': 4, 'f_worker.0': 4, 'f_work_queue_get_work.0': 3}
     if tier == 'thorough':
+        j += fvm.config('C17', 'wq_window_3', 'wq_window.c', 3, 4, 'sc', srcs=src, spec=S, unwindset={'f_work_queue_get_work.0': 3}, bounds='3 threads: worker, possible second worker, pusher; fixed call sequences', timeout=3600, required=False, mem_gb=24)
         j += fvm.config('C17', 'wq_general_2', 'wq_general.c', 2, 4, 'sc', srcs=src, defines=['NT=2'], spec=S, unwindset=uwg, bounds='2 threads push one item each; either may become the worker', timeout=3600)
         j += fvm.config('C17', 'wq_general_3', 'wq_general.c', 3, 4, 'sc', srcs=src, defines=['NT=3'], spec=S, unwindset=uwg, bounds='3 threads push one item each; any may become the worker', timeout=3600, required=False, mem_gb=24)
         uw2 = dict(uw); uw2['f_vm_thread_1.0'] = 4
